@@ -255,7 +255,7 @@ def c11(sc, V):
         errs = [r for r in s.of("rep") if r[3] == "error" and r[4] in ("1", "2", "3", "4", "5")]
         if not errs:
             continue
-        eff = [l for l in s.lines if l[0] in ("spawn", "sig", "ev", "reap", "close")]
+        eff = [l for l in s.lines if l[0] in ("spawn", "ev", "reap", "close") or (l[0] == "sig" and l[3] != "g")]
         b, a = s.before, s.snap
         same = (b.names == a.names and [(w["name"], w["status"], w["np"], w["procs"]) for w in b.watchers] ==
                 [(w["name"], w["status"], w["np"], w["procs"]) for w in a.watchers] and
@@ -382,6 +382,32 @@ def _graceful_at(sc, V, n, wname):
     return g
 
 
+def _stopsig_at(sc, V, n, wname):
+    g = 15
+    for w in sc["watchers"]:
+        if w["name"] == wname:
+            g = w.get("stop_signal", 15)
+    for s in V[:n]:
+        if s.kind() != "req":
+            continue
+        p = s.props()
+        if s.cmd() == "add" and p.get("name") == wname and any(r[3] == "ok" for r in s.of("rep")):
+            g = 15
+            o = p.get("options") or {}
+            if isinstance(o, dict) and isinstance(o.get("stop_signal"), int):
+                g = o["stop_signal"]
+        if s.cmd() == "set" and isinstance(p.get("name"), str) and p["name"].lower() == wname.lower():
+            o = p.get("options")
+            if isinstance(o, dict) and isinstance(o.get("stop_signal"), int) and not isinstance(o.get("stop_signal"), bool) and \
+                    any(l[0] == "ev" and l[2] == "updated" for l in s.lines):
+                g = o["stop_signal"]
+    return g
+
+
+def _sigkilled_before(V, n, pid):
+    return any(l[0] == "sig" and l[1] == pid and l[2] == 9 and l[3] in ("r", "z") for x in V[:n + 1] for l in x.lines)
+
+
 def c03(sc, V):
     f = []
     owner = {}                # pid -> watcher name
@@ -395,6 +421,7 @@ def c03(sc, V):
             if l[0] == "spawn":
                 owner[l[1]] = l[2]
         now = s.snap.t if not s.snap.blocked else s.before.t
+        t_start = now - s.slept            # clock when the step's code started running (after a wake's jump)
         for i, l in enumerate(s.lines):
             if l[0] != "sig" or l[4] in ("x",):
                 continue
@@ -410,20 +437,21 @@ def c03(sc, V):
                     gt = s.props().get("graceful_timeout")
                     if isinstance(gt, (int, float)) and not isinstance(gt, bool):
                         T = int(round(gt * 1000))
-                stop_sent[pid] = (now - s.slept if False else now, sg, T)
+                stop_sent[pid] = ((t_start, now), sg, T)
             if sg == 9 and via == "" and st == "r" and s.kind() == "wake":
                 if wn_real in veto:
                     continue
                 if pid not in stop_sent:
-                    f.append({"sig": "sigkill-without-stop-signal", "step": s.n, "msg": "pid %d got SIGKILL but never the stop signal" % pid})
+                    if _stopsig_at(sc, V, s.n, wn_real) != 9:
+                        f.append({"sig": "sigkill-without-stop-signal", "step": s.n, "msg": "pid %d got SIGKILL but never the stop signal" % pid})
                 else:
-                    t0, _, T = stop_sent[pid]
-                    if T is not None and now + 0 < t0 + T:
+                    (t0a, t0b), _, T = stop_sent[pid]
+                    if T is not None and now < t0a + T:
                         f.append({"sig": "sigkill-early", "step": s.n,
-                                  "msg": "pid %d SIGKILLed %d ms after the stop signal, graceful_timeout %d ms" % (pid, now - t0, T)})
-                    if T is not None and now - s.slept > t0 + T + 100:
+                                  "msg": "pid %d SIGKILLed at most %d ms after the stop signal, graceful_timeout %d ms" % (pid, now - t0a, T)})
+                    if T is not None and t_start > t0b + T + 100:
                         f.append({"sig": "sigkill-late", "step": s.n,
-                                  "msg": "pid %d SIGKILLed %d ms after the stop signal, graceful_timeout %d ms" % (pid, now - t0, T)})
+                                  "msg": "pid %d SIGKILLed at least %d ms after the stop signal, graceful_timeout %d ms" % (pid, t_start - t0b, T)})
         # stop_children: the stop signal and the final SIGKILL reach the direct children too
         for i, l in enumerate(s.lines):
             if l[0] == "sig" and l[4] == "" and l[3] == "r" and l[1] in owner:
@@ -435,7 +463,8 @@ def c03(sc, V):
                 kids = [p for p, (stt, pp) in s.before.kernel.items() if pp == l[1] and stt == "r"]
                 if not kids:
                     continue
-                is_stop = l[2] != 9 and s.cmd() not in ("signal",) and cfg.get("stop_children") and \
+                in_kill = any(m[0] == "ev" and m[2] == "kill" and m[3] == l[1] for m in s.lines[i + 1:i + 3])
+                is_stop = l[2] != 9 and in_kill and s.cmd() not in ("signal",) and cfg.get("stop_children") and \
                     not any(x.cmd() == "set" for x in V[:s.n + 1])
                 is_final = l[2] == 9 and s.kind() == "wake"
                 if is_stop or is_final:
@@ -477,7 +506,11 @@ def c02(sc, V):
                 for key, pids in pids_of.items():
                     if key.lower() != evn:
                         continue
-                    surv = [p for p in pids if p not in after and s.snap.kernel.get(p, ("g", None))[0] in ("r", "z")]
+                    wb = next((x for x in s.before.watchers if res_name(x["name"]) == evn), None)
+                    listed_before = set(q[0] for q in wb["procs"]) if wb else set()
+                    surv = [p for p in pids if p not in after and not _sigkilled_before(V, s.n, p) and
+                            (s.snap.kernel.get(p, ("g", None))[0] == "r" or
+                             (s.snap.kernel.get(p, ("g", None))[0] == "z" and p in listed_before))]
                     if surv:
                         sig = "survivor-after-stop"
                         if all(_after_spawn_failed(V, s.n, p) for p in surv):
@@ -534,9 +567,11 @@ def c04(sc, V):
                     f.append({"sig": "transient-status-stuck" + ("-after-exception" if raised else ""), "step": s.n,
                               "msg": "%s is %s with nothing in flight" % (w["name"], w["status"])})
             for pid, (st, pp) in a.kernel.items():
-                if pp == 0 and st == "r" and pid not in listed and pid not in orphaned_ok and pid in spawned:
+                if pp == 0 and st == "r" and pid not in listed and pid not in orphaned_ok and pid in spawned and \
+                        not _sigkilled_before(V, s.n, pid):
                     f.append({"sig": "untracked-live-worker", "step": s.n, "msg": "pid %d (%s) is alive but no watcher lists it" % (pid, spawned[pid])})
-            if s.kind() == "check" and not any(l[0] == "conflict" for l in s.lines) and not a.stopping:
+            if s.kind() == "check" and not any(l[0] == "conflict" for l in s.lines) and not a.stopping and \
+                    not (s.n > 0 and V[s.n - 1].kind() == "fault"):
                 for pid, wn in listed.items():
                     w = a.w(wn)
                     if w["status"] != "stopped" and not alive(a.kernel.get(pid, ("g", None))[0]):
@@ -591,7 +626,8 @@ def c09(sc, V):
                 if p[0] not in spawn_ev and p[0] in owner and not _after_spawn_failed(V, s.n, p[0]):
                     # adopted worker without a spawn event (only legal inside the spawn step before the hook verdict)
                     f.append({"sig": "listed-without-spawn-event", "step": s.n, "msg": "pid %d" % p[0]})
-        if a.quiescent() and s.kind() == "check" and not a.stopping and not any(l[0] == "conflict" for l in s.lines):
+        if a.quiescent() and s.kind() == "check" and not a.stopping and not any(l[0] == "conflict" for l in s.lines) and \
+                not (s.n > 0 and V[s.n - 1].kind() == "fault"):
             live_claim = set(p for p in spawn_ev if p not in reap_ev and p not in kill_ev)
             live = set(p[0] for w in a.watchers for p in w["procs"] if alive(a.kernel.get(p[0], ("g", 0))[0]))
             gone_unannounced = [p for p in live_claim - live if not alive(a.kernel.get(p, ("g", 0))[0]) and
@@ -864,7 +900,7 @@ def c01(sc, V):
             if wa["status"] != "active":
                 continue
             old = set(p[0] for p in wb["procs"])
-            stale = [p[0] for p in wa["procs"] if p[0] in old]
+            stale = [p[0] for p in wa["procs"] if p[0] in old and alive(s.snap.kernel.get(p[0], ("g", 0))[0])]
             if stale and not any(l[0] in ("raised",) for x in V[q.n:s.n + 1] for l in x.lines) and \
                     all(x.kind() in ("wake", "adv", "req") for x in V[q.n:s.n + 1]):
                 f.append({"sig": "stale-worker-after-%s" % q.cmd(), "step": s.n,
@@ -890,13 +926,17 @@ def _last_spawn_time(V, n, w):
 
 def c08(sc, V):
     f = []
+    signalled = None
     for s in V:
         if s.before.blocked:
             break
-        if s.kind() == "sig" and s.op[1] == "quit":
-            if not s.snap.blocked and not s.snap.stopping:
-                f.append({"sig": "termination-signal-ignored" + ("-while-busy" if s.before.slot else ""), "step": s.n,
-                          "msg": "SIGTERM/INT/QUIT arrived (exclusive slot: %s) and no shutdown was started" % s.before.slot})
+        if s.kind() == "sig" and s.op[1] == "quit" and signalled is None:
+            signalled = (s.n, s.before.slot)
+        if signalled is not None and not s.snap.blocked and s.snap.quiescent() and not s.snap.stopping:
+            f.append({"sig": "termination-signal-lost" + ("-while-busy" if signalled[1] else ""), "step": s.n,
+                      "msg": "SIGTERM/INT/QUIT arrived at step %d (exclusive slot then: %s); nothing is in flight any more and no "
+                             "shutdown was started" % signalled})
+            signalled = None
         if any(l[0] == "close" and l[1] == "ctrl" for l in s.lines) and not s.snap.blocked:
             a = s.snap
             if not any(l[0] == "close" and l[1] == "evpub" for l in s.lines):
@@ -905,7 +945,10 @@ def c08(sc, V):
                 if w["status"] != "stopped" or w["procs"]:
                     f.append({"sig": "shutdown-left-watcher-running", "step": s.n, "msg": "%s: %s %r" % (w["name"], w["status"], w["procs"])})
             listed_before = set()
-            left = [p for p, (st, pp) in a.kernel.items() if pp == 0 and st in ("r", "z") and _spawned_by_registered(V, s.n, p, a)]
+            lb = set(q[0] for w in s.before.watchers for q in w["procs"])
+            left = [p for p, (st, pp) in a.kernel.items() if pp == 0 and (st == "r" or (st == "z" and p in lb)) and
+                    not _sigkilled_before(V, s.n, p) and
+                    _spawned_by_registered(V, s.n, p, a)]
             if left:
                 f.append({"sig": "survivor-after-shutdown", "step": s.n, "msg": "daemon children %r left behind" % left})
     return f
